@@ -1,14 +1,17 @@
 CHECK = {
     "level": "model_checking",
-    "technique": "explicit-state search to fixpoint over the real RegisterTable (storage image + touched marks) under typed set / bit set / bit clear / block write / sanitise in lock-step with a flat reference model; plus complete enumeration of corruption images followed by sanitise",
-    "rule": "part 1: a case is one transition (operation applied to a reachable state), all non-trivial; part 2: a case fixes the corruption symbol of two words and enumerates every combination of the remaining words of the area, sanitise once per image",
-    "assumptions": ["four small tables covering every register type and the min/max/range/callback/none constraint kinds; operands restricted to boundary values so that the reachable set is finite",
-                    "typed operations are only generated for registers in plain read-write areas",
-                    "always-fail registers are excluded (the statement's sanitise clause names no/min/max/range/callback constraints)"],
+    "technique": "explicit-state search to fixpoint over the real RegisterTable (storage image + table flags) under typed set / bit set / bit clear / block write / sanitise (+ one-fault environment operations on callback-backed tables) in lock-step with a flat reference model; plus complete enumeration of corruption images followed by sanitise, fault-free and under every single read / write callback fault position",
+    "rule": "part 1: a case is one transition (operation applied to a reachable state), all non-trivial; part 2: a case fixes the corruption symbol of two words and the fault position (none / k-th write / k-th read callback answers IO_ERROR) and enumerates every combination of the remaining words of the corrupted areas, sanitise once per image",
+    "assumptions": ["small tables covering every register type and the min/max/range/callback/none constraint kinds: the original nine (+3 thorough), registers in write-only areas (memory / callback-backed), SKIP_DEFAULTS areas (memory / callback-backed), an area without write callback in front of a writable one, an unconstrained f64, and three adjacent areas with every non-empty subset holding registers (the others entry-less); operands restricted to boundary values so that the reachable set is finite",
+                    "typed operations are only generated for registers in areas that are readable and writable and have a write callback (SKIP_DEFAULTS or not)",
+                    "always-fail registers are excluded (the statement's sanitise clause names no/min/max/range/callback constraints); sanitise is not judged on tables with registers in write-only areas",
+                    "corruption of an area that has no write callback or is flagged read-only, and sanitise runs during which an area callback answered IO_ERROR: only 'SUCCESS implies every constrained register satisfies its constraint' is demanded (the statement does not say what sanitise returns or leaves behind when a reset cannot be carried out)",
+                    "part 2 corrupts the first area (tables 6, 7, 15, 17: the first two; the three-area tables: all three)"],
     "harnesses": [{
         "name": "c05_invariant", "src": "harness/c05_invariant.c", "shape": "estate", "opt": "-O2",
-        "lib": ["src/registers/core.c"], "min_outcomes": 10,
+        "lib": ["src/registers/core.c"], "min_outcomes": 13,
         "require_outcomes": {"any": ["set-accepted", "set-refused", "bitop-accepted", "bitop-refused-constraint", "bitop-refused-operand",
-                                     "block-accepted", "block-refused", "sanitise-clean", "sanitise-mixed"]},
+                                     "block-accepted", "block-refused", "sanitise-clean", "sanitise-mixed",
+                                     "fault-injected", "sanitise-fault-reached", "sanitise-unwritable-corrupted"]},
     }],
 }
